@@ -123,7 +123,10 @@ def metrics_mismatch(data: Any, ref: Dict[str, float]) -> Optional[str]:
     if int(data.numel) != ref["numel"]:
         return f"numel: recorded {data.numel}, actual {ref['numel']}"
     s = float(data.std)
-    if not (_close(s, ref["std_unbiased"]) or _close(s, ref["std_biased"])):
+    # a float32 standard deviation goes through squared deviations: below sqrt(float32 min normal)
+    # ~ 1e-19 it cannot be resolved (an implementation via var().sqrt() legitimately returns 0)
+    tiny = abs(s) <= 2e-19 and ref["std_biased"] <= 2e-19
+    if not (tiny or _close(s, ref["std_unbiased"]) or _close(s, ref["std_biased"])):
         return f"std: recorded {s!r}, recomputed {ref['std_unbiased']!r} (unbiased) / {ref['std_biased']!r}"
     return None
 
